@@ -1143,21 +1143,11 @@ def run(ctx):
 
 # histories the Coq development uses as witnesses of refuted statements: replayed on the implementation
 WITNESSES = [
-    dict(name='with_tags_append_moment',
-         ops={'1': dict(q=[0], mk=[], ck=[], pn=[], kind='u'), '2': dict(q=[0], mk=[], ck=[], pn=[], kind='u')},
-         final=[[2], [1]],
-         calls=[dict(c='new', items=[{'m': [1]}], s='EARLIEST'), dict(c='with_tags'), dict(c='append', items=[{'m': [2]}], s='EARLIEST')]),
     dict(name='concat_ragged_control_before_measurement',
          ops={'1': dict(q=[0], mk=[], ck=[], pn=[], kind='u'), '2': dict(q=[0], mk=[0], ck=[], pn=[], kind='meas'),
               '3': dict(q=[1], mk=[], ck=[0], pn=[], kind='cc')},
          final=[[1, 3], [2]],
          calls=[dict(c='new', items=[{'m': [1]}, {'m': [2]}], s='EARLIEST'), dict(c='concat', others=[[[3]]], align='LEFT')]),
-    dict(name='batch_insert_shift',
-         ops={'1': dict(q=[0], mk=[], ck=[], pn=[], kind='u'), '2': dict(q=[1], mk=[], ck=[], pn=[], kind='u'),
-              '3': dict(q=[2], mk=[], ck=[], pn=[], kind='u'), '4': dict(q=[1], mk=[], ck=[], pn=[], kind='u'),
-              '5': dict(q=[2], mk=[], ck=[], pn=[], kind='u')},
-         final=[[1, 4], [2], [3], [5]],
-         calls=[dict(c='new', items=[{'m': [1]}, {'m': [2]}, {'m': [3]}], s='EARLIEST'), dict(c='binsert', ins=[[0, [4]], [2, [5]]])]),
     dict(name='insert_at_frontier_same_key',
          ops={'1': dict(q=[3], mk=[], ck=[], pn=[], kind='u'), '2': dict(q=[3], mk=[0], ck=[], pn=[], kind='meas'),
               '3': dict(q=[2], mk=[0], ck=[], pn=[], kind='meas')},
